@@ -18,14 +18,48 @@ const OP_CLONE: usize = 10;
 const OP_CLONE_FROM: usize = 11;
 const OP_SERDE: usize = 12;
 
+/// clip penalties set through Scoring's builder methods (xclip / yclip when both ends agree)
+fn via_builder<F: bio::alignment::pairwise::MatchFunc>(mut s: Scoring<F>, c: &[i32; 4]) -> Scoring<F> {
+    if c[0] == c[1] {
+        if c[0] != MIN_SCORE {
+            s = s.xclip(c[0]);
+        }
+    } else {
+        if c[0] != MIN_SCORE {
+            s = s.xclip_prefix(c[0]);
+        }
+        if c[1] != MIN_SCORE {
+            s = s.xclip_suffix(c[1]);
+        }
+    }
+    if c[2] == c[3] {
+        if c[2] != MIN_SCORE {
+            s = s.yclip(c[2]);
+        }
+    } else {
+        if c[3] != MIN_SCORE {
+            s = s.yclip_suffix(c[3]);
+        }
+        if c[2] != MIN_SCORE {
+            s = s.yclip_prefix(c[2]);
+        }
+    }
+    s
+}
+
 fn make(alpha: &[u8], sc: &Scheme, how: u64, cap: (usize, usize)) -> Al {
     match (sc.simple, how % 2) {
         (Some((m, mm)), 0) => {
             let mut s = Scoring::from_scores(sc.go, sc.ge, m, mm);
-            s.xclip_prefix = sc.clip[0];
-            s.xclip_suffix = sc.clip[1];
-            s.yclip_prefix = sc.clip[2];
-            s.yclip_suffix = sc.clip[3];
+            if how % 5 == 4 {
+                // the documented way: the builder methods of Scoring
+                s = via_builder(s, &sc.clip);
+            } else {
+                s.xclip_prefix = sc.clip[0];
+                s.xclip_suffix = sc.clip[1];
+                s.yclip_prefix = sc.clip[2];
+                s.yclip_suffix = sc.clip[3];
+            }
             Al::Par(if how % 4 == 0 {
                 Aligner::with_scoring(s)
             } else {
@@ -47,10 +81,14 @@ fn make(alpha: &[u8], sc: &Scheme, how: u64, cap: (usize, usize)) -> Al {
             if how % 3 == 0 {
                 s.match_scores = Some(((how % 5) as i32, -((how % 4) as i32)));
             }
-            s.xclip_prefix = sc.clip[0];
-            s.xclip_suffix = sc.clip[1];
-            s.yclip_prefix = sc.clip[2];
-            s.yclip_suffix = sc.clip[3];
+            if how % 5 == 4 {
+                s = via_builder(s, &sc.clip);
+            } else {
+                s.xclip_prefix = sc.clip[0];
+                s.xclip_suffix = sc.clip[1];
+                s.yclip_prefix = sc.clip[2];
+                s.yclip_suffix = sc.clip[3];
+            }
             Al::Tab(if how % 4 == 1 {
                 Aligner::with_scoring(s)
             } else {
@@ -69,7 +107,13 @@ fn run(log: &mut Log, tag: &str, alpha: &[u8], sc: &Scheme, how: u64, cap: (usiz
         return;
     }
     let mut al = make(alpha, sc, how, cap);
+    let mut spare: Option<Al> = None;
     for (ci, (mode, x, y, wit)) in calls.iter().enumerate() {
+        if ci % 2 == 0 {
+            if let Some(sp) = spare.as_mut() {
+                std::mem::swap(&mut al, sp);
+            }
+        }
         if *mode >= OP_CLONE {
             // the object is replaced by a copy of itself; everything after this runs on the copy
             let name = match *mode {
@@ -80,8 +124,9 @@ fn run(log: &mut Log, tag: &str, alpha: &[u8], sc: &Scheme, how: u64, cap: (usiz
             let r = log.call(name, json!({}), || {
                 match *mode {
                     OP_CLONE => {
+                        // the copy goes on; the original is kept and takes every second call from now on
                         let c = al.clone();
-                        al = c;
+                        spare = Some(std::mem::replace(&mut al, c));
                     }
                     OP_CLONE_FROM => {
                         // another aligner with its own scheme, capacity and one call of history
